@@ -9,6 +9,7 @@ import (
 func init() {
 	verifRegister("VerifC10_EOrder", VerifC10_EOrder)
 	verifRegister("VerifC10_EPrior", VerifC10_EPrior)
+	verifRegister("VerifC10_KBuiltins", VerifC10_KBuiltins)
 }
 
 // programs whose result text goes through code that ranges over Go maps
@@ -67,6 +68,11 @@ func VerifC10_EPrior() {
 		"(defun g () 1) (to-string g)",
 		"(handler-bind ((condition (lambda (c &rest m) m))) (car 5))",
 		"(to-string (list (sorted-map) (vector) (to-bytes \"a\") car))",
+		"(funcall (s:gt 5))",
+		"(handler-bind ((condition (lambda (c &rest m) (list c m)))) (funcall (s:make-validator \"t\" s:int) 1 2))",
+		"(s:deftype \"small\" s:int (s:lt 10)) (s:validate small 50)",
+		"(golang:string (sorted-map 'a 1))",
+		"(format-string \"{} {}\" (lambda (x) x) (sorted-map 'k (vector 1)))",
 	}
 	pi := vndChoice("prog", len(progs))
 	run := func() (string, int64) {
@@ -85,8 +91,161 @@ func VerifC10_EPrior() {
 	v1, s1 := run()
 	vObserve("prog", progs[pi])
 	vObserve("value", v0)
+	if v1 != v0 {
+		// KNOWN FINDING (known_findings.json): libschema names anonymous validators from a
+		// process-global counter and the name reaches error text.  Only that is waived: with the
+		// counter digits removed the two texts must be identical.
+		if vKnown("C10-schema-validator-counter", strings.Contains(v0, "_validation_fun_") && c10StripCounter(v0) == c10StripCounter(v1) && s1 == s0) {
+			return
+		}
+	}
 	vAssert(v1 == v0, "the value does not depend on runtimes that ran earlier in the process; later run gave "+v1)
 	vAssert(s1 == s0, "nor does the step count")
 	vAssert(!strings.Contains(v0, "0xPTR"), "no memory address is printed")
 	vCover("end")
+}
+
+// ---- every registered function, called with the same argument tuple in two runtimes of one
+// process (the second created later): same printed result, same error message, no memory address.
+
+var c10A, c10B *lisp.LEnv
+
+var c10Skip = map[string]bool{
+	"time:utc-now": true, "time:time-elapsed": true, "time:sleep": true, // explicitly time-dependent (the property's exceptions)
+	"lisp:load-file": true, "lisp:load-string": false,
+}
+
+func VerifC10_KBuiltins_Setup() {
+	VerifC03_KBuiltins_Setup() // the function list
+	mk := func() *lisp.LEnv {
+		env := newEnv(nil, lisp.WithMaximumPhysicalStackHeight(60), lisp.WithMaxSteps(2000), lisp.WithMaxAlloc(1<<12), lisp.WithMaxEvalNesting(120), lisp.WithMaxMacroExpansionDepth(20))
+		if rc := loadStdlib(env); !rc.IsNil() {
+			panic("stdlib load failed")
+		}
+		return env
+	}
+	c10A = mk()
+	c10B = mk()
+}
+
+const c10NGen = 17
+
+func c10Gen(env *lisp.LEnv, g int, iv int) *lisp.LVal {
+	switch g {
+	case 0:
+		return lisp.Int(iv)
+	case 1:
+		return lisp.Nil()
+	case 2:
+		return lisp.String("ab")
+	case 3:
+		return lisp.QExpr([]*lisp.LVal{lisp.Int(iv), lisp.Int(2)})
+	case 4:
+		return env.LoadString("gen", "(lambda (&rest xs) (error 'from-callback xs))")
+	case 5:
+		return lisp.Float(1.5)
+	case 6:
+		return lisp.Quote(lisp.Symbol("x"))
+	case 7:
+		return lisp.Symbol(":k")
+	case 8:
+		return env.LoadString("gen", "(vector 1 2)")
+	case 9:
+		return lisp.Bytes([]byte{1, 2})
+	case 10:
+		return env.LoadString("gen", "(sorted-map \"a\" 1 'b 2)")
+	case 11:
+		return lisp.Native(struct{ X int }{1})
+	case 12:
+		return lisp.Error(lisp.GoError(lisp.Errorf("an error value")))
+	case 13:
+		return env.LoadString("gen", "(let ((a 1) (b (vector 2))) (lambda (q) (list a b q)))")
+	case 14:
+		return env.LoadString("gen", "(sorted-map)")
+	case 15:
+		return env.LoadString("gen", "(make-array 2 2)")
+	case 16:
+		return env.LoadString("gen", "car")
+	}
+	return lisp.Nil()
+}
+
+func VerifC10_KBuiltins() {
+	if c10A == nil {
+		VerifC10_KBuiltins_Setup()
+	}
+	n := len(c03Funs)
+	per := (n + 31) / 32
+	idx := vConcInt(vndChoice("fn.hi", 32)*per + vndChoice("fn.lo", per))
+	vAssume(idx < n)
+	name := c03Funs[idx]
+	vAssume(!c10Skip[name])
+	arity := vConcInt(vndChoice("arity", vParam("maxarity", 1)+1))
+	gs := make([]int, arity)
+	ivs := make([]int, arity)
+	for i := range gs {
+		gs[i] = vConcInt(vndChoice("gen", c10NGen))
+		if gs[i] == 11 && strings.HasPrefix(name, "json:") {
+			vAssume(false) // a host struct goes through encoding/json (reflection): outside the claim
+		}
+		if gs[i] == 0 || gs[i] == 3 {
+			bs := []int{0, 1, -1, 7, 9223372036854775807}
+			ivs[i] = bs[vConcInt(vndChoice("iv", len(bs)))]
+		}
+	}
+	call := func(env *lisp.LEnv) (string, string) {
+		args := make([]*lisp.LVal, arity)
+		for i := range args {
+			args[i] = c10Gen(env, gs[i], ivs[i])
+		}
+		parts := strings.SplitN(name, ":", 2)
+		fun, _ := env.Runtime.Registry.Package(parts[0]).Symbol(parts[1])
+		var res *lisp.LVal
+		switch {
+		case fun.IsSpecialOp():
+			res = env.SpecialOpCall(fun, lisp.QExpr(args))
+		case fun.IsMacro():
+			res = env.MacroCall(fun, lisp.QExpr(args))
+		default:
+			res = env.FunCall(fun, lisp.QExpr(args))
+		}
+		msg := ""
+		if res.Type == lisp.LError {
+			msg = lisp.GoError(res).Error()
+		}
+		return res.String(), msg
+	}
+	vA, mA := call(c10A)
+	vB, mB := call(c10B)
+	vObserve("fn", name)
+	if vA != vB || mA != mB {
+		// KNOWN FINDING: anonymous schema validators are named from a process-global counter
+		if vKnown("C10-schema-validator-counter", strings.Contains(vA+mA, "_validation_fun_") && c10StripCounter(vA+mA) == c10StripCounter(vB+mB)) {
+			return
+		}
+	}
+	vAssert(vA == vB, "the printed result is the same in every runtime of the process: "+vA+" / "+vB)
+	vAssert(mA == mB, "so is the error message: "+mA+" / "+mB)
+	vAssert(!strings.Contains(vA, "0xPTR") && !strings.Contains(mA, "0xPTR"), "no memory address appears in the value or the message: "+vA+" "+mA)
+	vCover("end")
+}
+
+// c10StripCounter removes the digits that follow "_validation_fun_".
+func c10StripCounter(s string) string {
+	const tag = "_validation_fun_"
+	var sb strings.Builder
+	for {
+		i := strings.Index(s, tag)
+		if i < 0 {
+			sb.WriteString(s)
+			return sb.String()
+		}
+		sb.WriteString(s[:i+len(tag)])
+		s = s[i+len(tag):]
+		j := 0
+		for j < len(s) && s[j] >= '0' && s[j] <= '9' {
+			j++
+		}
+		s = s[j:]
+	}
 }
